@@ -213,6 +213,20 @@ func unpackV8(data []byte, i *int8) error {
 	return nil
 }
 
+// roundV16 scales a value and rounds it to the nearest 16-bit signed integer. Values beyond the
+// range saturate instead of wrapping around.
+func roundV16(f float32, scale float64) int16 {
+	v := math.Round(float64(f) * scale)
+
+	if v >= math.MaxInt16 {
+		return math.MaxInt16
+	} else if v <= math.MinInt16 {
+		return math.MinInt16
+	}
+
+	return int16(v)
+}
+
 func packV16(i int16) []byte {
 	b := make([]byte, 3)
 
